@@ -264,6 +264,10 @@ func c08Histories(quick bool) [][]SeqOp {
 	zulu := protocol.NewLockCommandDataSetString("zulu-zulu").Data
 	mixed := []SeqOp{op(0, z(L(0, 1, 1, 0, 90, 0, 0))), op(0, withData(z(L(0, 5, 5, 0, 2, 0, 0)), short)), op(0, withData(z(L(0, 2, 2, 0, 80, 0, 0)), yankee)), op(0, z(L(0, 3, 3, 0, 80, 0, 0))), op(0, withData(z(L(0, 4, 4, 0, 80, 0, 0)), zulu))}
 	hs = append(hs, append(append([]SeqOp{}, mixed...), tick(4*sec), op(0, z(L(0, 6, 6, 0, 80, 0, 0)))), mixed)
+	// history 6 (rotation threshold 4 records, see c08CfgFor): the record that rotates the append file carries a value
+	v2, v4, v6 := protocol.NewLockCommandDataSetString("value-2").Data, protocol.NewLockCommandDataSetString("value-4").Data, protocol.NewLockCommandDataSetString("value-6").Data
+	hs = append(hs, []SeqOp{op(0, z(L(0, 1, 1, 0, 90, 0, 0))), op(0, withData(z(L(0, 2, 2, 0, 90, 0, 0)), v2)), op(0, z(L(0, 3, 3, 0, 90, 0, 0))), op(0, withData(z(L(0, 4, 4, 0, 90, 0, 0)), v4)),
+		op(0, z(L(0, 5, 5, 0, 90, 0, 0))), op(0, withData(z(L(0, 6, 6, 0, 90, 0, 0)), v6))})
 	if !quick {
 		hs = append(hs,
 			[]SeqOp{op(0, z(L(0, 1, 1, 0, 90, 0, 0))), tick(2 * sec), op(0, z(L(0, 2, 2, 0, 3, 0, 0))), tick(5 * sec), op(0, z(L(0, 3, 3, 0, 70, 0, 1)))}, // an expiry record in between
@@ -312,6 +316,7 @@ func c08Cases(quick bool) []EnumCase {
 	var out []EnumCase
 	cfg := c08Cfg()
 	for hi, h := range c08Histories(quick) {
+		cfg = c08CfgFor(hi)
 		cap := runCapture(cfg, h, true)
 		if cap.Err != "" {
 			out = append(out, mkCase(fmt.Sprintf("h%d/broken", hi), c08Arg{Hist: hi, Kind: "broken"}))
@@ -334,6 +339,9 @@ func c08Cases(quick bool) []EnumCase {
 			}
 			out = append(out, mkCase(fmt.Sprintf("h%d/dat-cut/%d-%d", hi, f, t-1), c08Arg{hi, "dat-cut", f, t}))
 		}
+		if hi == 6 {
+			continue // the crash points of a history that rotates are those of a compaction: C16's ground
+		}
 		for f := 0; f < len(cap.Points); f += chunk {
 			t := f + chunk
 			if t > len(cap.Points) {
@@ -347,6 +355,16 @@ func c08Cases(quick bool) []EnumCase {
 
 func c08Cfg() hapi.Config {
 	return hapi.Config{FastKeys: 4, Concurrent: 1, FileBuf: 64, RewriteSz: 1 << 20}
+}
+
+// c08CfgFor: history 6 runs with a rotation threshold of four records, so that its fourth record (which carries a
+// value) is the one that rotates the append file.
+func c08CfgFor(hist int) hapi.Config {
+	c := c08Cfg()
+	if hist == 6 {
+		c.RewriteSz = 12 + 64*4
+	}
+	return c
 }
 
 // prefixStates: the states recovered from the clean record prefixes 0..n of the newest append file.
@@ -373,7 +391,7 @@ func evalC08(c *Ctx, cs EnumCase) EnumResult {
 	if a.Kind == "broken" {
 		return EnumResult{Err: "history could not be executed"}
 	}
-	cfg := c08Cfg()
+	cfg := c08CfgFor(a.Hist)
 	h := c08Histories(c.Quick())[a.Hist]
 	cap := runCapture(cfg, h, a.Kind == "fs-point")
 	if cap.Err != "" {
